@@ -575,6 +575,23 @@ func (w *World) rootSlabOf(h *Handle) atree.Slab {
 }
 
 func (w *World) Observe() ([]RootObs, StoreObs) {
+	// Observation must not change what it observes: reading the content through the public iterators loads every slab
+	// into the read cache, which would hide everything that depends on a slab NOT being loaded (a removal of a slab
+	// that was never read in this session, partially loaded containers).  Slabs that only the observation loaded are
+	// evicted again afterwards; nothing refers to them (the iterators and the values they produced are gone).
+	cache := atree.VerifCache(w.St)
+	before := make(map[atree.SlabID]struct{}, len(cache))
+	for id := range cache {
+		before[id] = struct{}{}
+	}
+	defer func() {
+		cache := atree.VerifCache(w.St)
+		for id := range cache {
+			if _, ok := before[id]; !ok {
+				delete(cache, id)
+			}
+		}
+	}()
 	p := w.newProjector()
 	roots := []RootObs{}
 	for _, name := range w.Roots {
